@@ -173,27 +173,101 @@ invariants. -/
 theorem receiver_handle_rtcp_total (r : Receiver) (hr : RecvInv r) (p : RtcpPacket) :
     RecvInv (r.handleRtcp p).1 := recv_handleRtcp_inv r hr p
 
-/-- `RTCRtpSender._handle_rtcp_packet` for EVERY parsed RTCP packet and EVERY sender state: RR/SR statistics, NACK →
-`_retransmit` for each listed sequence number, PLI / FIR → key frame, REMB → `unpack_remb_fci` inside
-`try … except ValueError`. -/
-theorem sender_handle_rtcp_total (s : Sender) (p : RtcpPacket) : ∃ s' e, s.handleRtcp p = .ok (s', e) :=
-  sender_handleRtcp_total s p
+/-- `RTCRtpSender._handle_rtcp_packet` for EVERY parsed RTCP packet and EVERY sender state whose RTX sequence number is
+a 16-bit number (`SenderInv`): RR/SR statistics, NACK → `_retransmit` for each listed sequence number (incl.
+`RtpPacket.serialize` of the RTX packet: `struct.error` if the counter had left 0..65535), PLI / FIR → key frame,
+REMB → `unpack_remb_fci` inside `try … except ValueError`.  The invariant holds again afterwards, whatever the
+history. -/
+theorem sender_handle_rtcp_total (s : Sender) (hs : SenderInv s) (p : RtcpPacket) :
+    ∃ s' e, s.handleRtcp p = .ok (s', e) ∧ SenderInv s' :=
+  sender_handleRtcp_total s hs p
 
 /-- A NACK answers each listed sequence number with at most one retransmission: the work is linear in the
 datagram (each 4-byte FCI entry lists at most 17 sequence numbers). -/
-theorem retransmissions_bounded (s : Sender) : ∀ (lost : List Nat), (s.retransmitAll lost).2.length ≤ lost.length := by
-  intro lost
-  induction lost generalizing s with
-  | nil => simp [Sender.retransmitAll]
-  | cons a rest ih =>
-    unfold Sender.retransmitAll
-    simp only [List.length_append, List.length_cons]
-    have h1 : (s.retransmit a).2.length ≤ 1 := by
-      unfold Sender.retransmit
-      repeat' split
-      all_goals simp
-    have h2 := ih (s.retransmit a).1
+theorem retransmissions_bounded (s : Sender) (hs : SenderInv s) (lost : List Nat) :
+    ∃ s' e, s.retransmitAll lost = .ok (s', e) ∧ SenderInv s' ∧ e.length ≤ lost.length :=
+  retransmitAll_total s hs lost
+
+/-! ### the RTX sequence number: every origin, every length of history -/
+
+/-- `RTCRtpSender.__init__`: `random_sequence_number()` = `random16() % 32768` is a 16-bit number, for every draw. -/
+theorem fresh_sender_inv (r16 : Int) (s : Sender) (h : s.rtxSequenceNumber = r16 % 32768) : SenderInv s := by
+  unfold SenderInv Props.C17.R16
+  omega
+
+/-- One retransmission of a packet that is in the history, RTX negotiated: the RTX packet carries the current counter,
+which fits the 16-bit field, and the counter advances in serial arithmetic — 65535 is followed by 0. -/
+theorem retransmit_hit (s : Sender) (hs : SenderInv s) (seq pt : Nat) (pkt : RtpPacket)
+    (hh : Router.dget (seq % RTP_HISTORY_SIZE) s.history = some pkt) (hq : pkt.sequenceNumber = seq)
+    (hpt : s.rtxPayloadType = some pt) :
+    s.retransmit seq = .ok ({ s with rtxSequenceNumber := (s.rtxSequenceNumber + 1) % 65536 },
+                            [.retransmit s.id (wrapRtx pkt pt s.rtxSequenceNumber.toNat s.rtxSsrc)])
+    ∧ (wrapRtx pkt pt s.rtxSequenceNumber.toNat s.rtxSsrc).sequenceNumber < 65536 := by
+  constructor
+  · unfold Sender.retransmit Sender.retransmitWith
+    rw [hh]
+    simp only [hq, if_true, hpt, seqPackable_of_r16 hs, uint16_add]
+  · have h1 := hs.1
+    have h2 := hs.2
+    unfold wrapRtx
+    simp only
     omega
+
+/-- **Any origin, any length of history**: after `n` retransmissions (n arbitrary — 32 769, 65 536, …) from ANY 16-bit
+origin the counter is `(origin + n) mod 2^16`, all `n` packets were sent, nothing was raised. -/
+theorem rtx_counter_every_origin (seq pt : Nat) (pkt : RtpPacket) (hq : pkt.sequenceNumber = seq) :
+    ∀ (n : Nat) (s : Sender), SenderInv s → Router.dget (seq % RTP_HISTORY_SIZE) s.history = some pkt →
+      s.rtxPayloadType = some pt →
+      ∃ s' e, s.retransmitAll (List.replicate n seq) = .ok (s', e)
+        ∧ s'.rtxSequenceNumber = (s.rtxSequenceNumber + n) % 65536 ∧ e.length = n := by
+  intro n
+  induction n with
+  | zero =>
+    intro s hs _ _
+    refine ⟨s, [], rfl, ?_, rfl⟩
+    have h1 := hs.1
+    have h2 := hs.2
+    simp only [Int.natCast_zero, Int.add_zero]
+    omega
+  | succ k ih =>
+    intro s hs hh hpt
+    have hstep := (retransmit_hit s hs seq pt pkt hh hq hpt).1
+    have hs1 : SenderInv { s with rtxSequenceNumber := (s.rtxSequenceNumber + 1) % 65536 } := by
+      unfold SenderInv Props.C17.R16; simp only; omega
+    obtain ⟨s2, e2, h2, hc2, hl2⟩ := ih { s with rtxSequenceNumber := (s.rtxSequenceNumber + 1) % 65536 } hs1 hh hpt
+    unfold Sender.retransmitAll at h2
+    unfold Sender.retransmit at hstep
+    unfold Sender.retransmitAll
+    rw [List.replicate_succ]
+    unfold Sender.retransmitAllWith
+    rw [hstep]
+    simp only
+    rw [h2]
+    refine ⟨_, _, rfl, ?_, ?_⟩
+    · rw [hc2]
+      simp only
+      push_cast
+      omega
+    · simp only [List.length_append, List.length_cons, List.length_nil, hl2]
+      omega
+
+/-- The class of regression this invariant is about: advance the counter WITHOUT the reduction (`+= 1`).  From 65535 the
+next retransmission still goes out (it carries 65535) and leaves the counter at 65536; the one after it raises
+`struct.error` out of `_handle_rtcp_packet` — for every sender, every history, every packet. -/
+theorem unreduced_counter_crashes (s : Sender) (seq pt : Nat) (pkt : RtpPacket)
+    (hh : Router.dget (seq % RTP_HISTORY_SIZE) s.history = some pkt) (hq : pkt.sequenceNumber = seq)
+    (hpt : s.rtxPayloadType = some pt) (h : s.rtxSequenceNumber = 65535) :
+    s.retransmitAllWith (fun n => n + 1) [seq, seq] = .crash "struct.error" := by
+  unfold Sender.retransmitAllWith Sender.retransmitWith
+  rw [hh]
+  simp only [hq, if_true, hpt, h]
+  have h1 : seqPackable 65535 = true := by decide
+  rw [if_pos h1]
+  simp only
+  unfold Sender.retransmitAllWith Sender.retransmitWith
+  simp only [hh, hq, if_true]
+  have h2 : seqPackable (65535 + 1) = false := by decide
+  simp only [h2, Bool.false_eq_true, if_false]
 
 /-- `_handle_rtp_data` for ANY byte string, ANY transport state (router, receivers, senders) whose receivers satisfy
 their invariants. -/
@@ -217,7 +291,7 @@ theorem recv_next_total (env : Env) (remb : Bool) (henv : env.rbeOut = .ok remb)
     ∃ t' e n, recvNext env t data = .ok (t', e, n) ∧ TransportInv t' ∧ n ≤ 128 := by
   unfold recvNext
   dsimp only
-  have hc : TransportInv (t.count data) := fun i => ht i
+  have hc : TransportInv (t.count data) := ⟨fun i => ht.1 i, fun i => ht.2 i⟩
   cases hd : demux (t.count data).hasSrtp data with
   | empty => exact ⟨_, _, _, rfl, hc, by omega⟩
   | dtls => exact ⟨_, _, _, rfl, hc, by omega⟩
@@ -367,7 +441,15 @@ example : ∃ t : Transport, TransportInv t := by
                                    rtcpSsrc := some 1, jb := jb },
            senders := fun _ => { id := 0, ssrc := 1, rtxSsrc := 2, rtxPayloadType := none, rtxSequenceNumber := 0,
                                  history := [], hasEncoder := false } },
-         fun _ => hinv⟩
+         ⟨fun _ => hinv, fun _ => by unfold SenderInv Props.C17.R16; simp⟩⟩
+
+/-- The hypotheses of `retransmit_hit` / `rtx_counter_every_origin` / `unreduced_counter_crashes` hold for a sender
+one step before the wrap with one packet in its history. -/
+example : let s : Sender := { id := 0, ssrc := 1, rtxSsrc := 2, rtxPayloadType := some 101, rtxSequenceNumber := 65535,
+                              history := [(3 % 128, { sequenceNumber := 3 })], hasEncoder := false }
+    SenderInv s ∧ Router.dget (3 % RTP_HISTORY_SIZE) s.history = some { sequenceNumber := 3 }
+      ∧ s.rtxPayloadType = some 101 ∧ s.rtxSequenceNumber = 65535 :=
+  ⟨⟨by decide, by decide⟩, by decide, rfl, rfl⟩
 
 /-- `PktOk` holds for a concrete packet (hypothesis of `receiver_handle_rtp_total`). -/
 example : PktOk { sequenceNumber := 65535, ssrc := 4294967295, payload := [0x90, 0x80, 5, 1, 2] } :=
